@@ -6,6 +6,11 @@ props = [json.loads(l)["id"] for l in open(os.path.join(ROOT, "properties.jsonl"
 
 # id -> (category, technique, level text, level note, design ref)
 CHECKS = {
+ "C11": ("fault_enumeration",
+         "runtime monitor: per-connection Close() accounting on a wrapping listener + census of proxy goroutines, after client aborts at enumerated byte offsets, stalls at every protocol step, injected I/O errors at every server-side operation index, and timer windows for the handshake/idle timeouts (flag wiring through VerifNewApp), race detector on",
+         "Fault points are enumerated: client FIN/RST after every 8th (quick) / every (thorough) byte of a complete HTTP/1.1 and HTTP/2 client session, a silent stall at 12 protocol steps followed by the client leaving, reset / timeout / EOF / short-write / deadline errors at every server-side I/O operation index of both sessions. After each group every accepted connection must have been Close()d and the number of proxy goroutines must be back at the baseline (bounded-progress restatement of 'eventually', 5 s bound, observed ~1 ms). Stalled handshakes and idle connections of both protocols must be cut within [0.8 T, T + max(3 s, 3 T)] of the configured timeout, for 1 (quick) / 3 (thorough) settings.",
+         "trusted: rig.AcctListener (sees every Close), runtime.Stack based census with markers for proxyserver / forked http2 serverConn / hack frames; a failed Set*Deadline is not treated as fatal (the client then leaves); wall-clock bounds are generous and a miss is re-checked before being reported",
+         "DESIGN.md §4 C11"),
  "C06": ("exploration",
          "runtime monitor: tag -> connection attribution at a recording backend under N concurrent clients with pairwise different ClientHellos and HTTP/2 preambles + race detector",
          "Rounds of 96-200 concurrent clients (utls specs made pairwise different by a unique extension id; unique SETTINGS value / WINDOW_UPDATE per h2 connection), half h2 with multiplexed bursts and half HTTP/1.1 keep-alive, from 127.0.0.1-8, with chopped handshake delivery, idle periods and early disconnects; every backend record must carry exactly the JA3/JA4 (references of the bytes that client wrote) and an admissible HTTP/2 fingerprint (reference of that client's frame history) of the connection the tagged request was sent on; a value that belongs to another connection of the round is reported as such. Race detector on. Held on the interleavings produced.",
